@@ -174,3 +174,72 @@ func lastOpenBegin(path string) int {
 	}
 	return open
 }
+
+// ---------------------------------------------------------------- long histories as several closed records
+
+const chunkEvents = 2000
+
+// chunkIdx: the first record of a long history keeps the history's own index, the others get 100000 + j.
+func chunkIdx(base, j int) int {
+	if j == 0 {
+		return base
+	}
+	return 100000 + 1000*base + j
+}
+
+// wantHistory: the history must be produced when its first record or (replay: -only) one of its later records is wanted.
+func wantHistory(base int) bool {
+	return want(base) || (*flagOnly >= 100000+1000*base && *flagOnly < 100000+1000*(base+1))
+}
+
+// emitFree emits a free-running C05 history (ncalls calls, the sorted ids of all first envelopes, the (request, reply)
+// pairs) as records of at most chunkEvents ids and chunkEvents pairs. Each record is judged on its own; together they say
+// what the single record said: the sorted id list is cut into consecutive runs and every run but the first starts with the
+// LAST id of the run before it (strictly increasing inside every record = strictly increasing overall = pairwise
+// distinct); the difference between the number of calls and the number of ids is charged to the last run.
+func emitFree(em *Emitter, base int, kind string, desc map[string]any, tags []string, ncalls int, ids []int64, pairs []string) {
+	nrec := (len(ids) + chunkEvents - 1) / chunkEvents
+	if n := (len(pairs) + chunkEvents - 1) / chunkEvents; n > nrec {
+		nrec = n
+	}
+	if nrec == 0 {
+		nrec = 1
+	}
+	nIDrec := (len(ids) + chunkEvents - 1) / chunkEvents
+	for j := 0; j < nrec; j++ {
+		var terms []string
+		n := 0
+		if lo := j * chunkEvents; lo < len(ids) {
+			hi := lo + chunkEvents
+			if hi > len(ids) {
+				hi = len(ids)
+			}
+			if lo > 0 {
+				terms = append(terms, fmt.Sprint(ids[lo-1]))
+			}
+			for _, v := range ids[lo:hi] {
+				terms = append(terms, fmt.Sprint(v))
+			}
+			n = len(terms)
+			if j == nIDrec-1 {
+				n += ncalls - len(ids)
+			}
+		} else if nIDrec == 0 && j == 0 {
+			n = ncalls
+		}
+		var ps []string
+		if lo := j * chunkEvents; lo < len(pairs) {
+			hi := lo + chunkEvents
+			if hi > len(pairs) {
+				hi = len(pairs)
+			}
+			ps = pairs[lo:hi]
+		}
+		idx := chunkIdx(base, j)
+		if !want(idx) {
+			continue
+		}
+		em.Emit(Rec{Idx: idx, Kind: kind, Desc: desc, Tags: append(append([]string{}, tags...), fmt.Sprintf("record=%d/%d", j+1, nrec)),
+			Coq: fmt.Sprintf("C05Free %d %s %s", n, coqList(terms), coqList(ps))})
+	}
+}
